@@ -63,7 +63,7 @@ func newTW02(r *rand.Rand, nr, nw int) *tw02 {
 	for i := 0; i < nw; i++ {
 		wr := packet.NewWriter()
 		var s *packet.Reader
-		if r.Intn(4) > 0 {
+		if r.Intn(6) > 0 {
 			s = packet.NewReader()
 			wr.Link(s)
 		}
@@ -119,7 +119,7 @@ type fwd02 struct {
 }
 
 func tracerCase(r *rand.Rand, hist map[string]int) (string, any, string, bool) {
-	nr, nw := 1+r.Intn(2), 1+r.Intn(3)
+	nr, nw := 1+r.Intn(2), 1+r.Intn(4)
 	w := newTW02(r, nr, nw)
 	defer w.close()
 	fw := make([]fwd02, nr)
@@ -173,7 +173,7 @@ func tracerCase(r *rand.Rand, hist map[string]int) (string, any, string, bool) {
 					hist["read"]++
 				case 1:
 					// the action returns: zero to three derived packets, each for its own writer
-					d := []int{0, 1, 1, 1, 2, 3}[r.Intn(6)]
+					d := []int{0, 1, 1, 2, 2, 3, 3, 4}[r.Intn(8)]
 					if d > nw {
 						d = nw
 					}
@@ -261,8 +261,8 @@ func runC02(seed int64, n int, tier string) *Result {
 		Requires: []string{"Packet.Writer", "Node.Tracer", "Node.CheckTracer"},
 		CaseType: "c2case",
 		OkFn:     "c2ok",
-		Rule: "tracer level: a real packet.Tracer with 1-2 readers (fed by real upstream writers) and 1-3 writers (each with or without a downstream reader); 8-32 calls chosen at random among " +
-			"the next call of each forward loop (Read; Link of 0-3 derived packets; Write of each to its own writer, or Write(nil, request) when nothing is derived) and the answers of downstream readers " +
+		Rule: "tracer level: a real packet.Tracer with 1-2 readers (fed by real upstream writers) and 1-4 writers (each with or without a downstream reader); 8-32 calls chosen at random among " +
+			"the next call of each forward loop (Read; Link of 0-4 derived packets; Write of each to its own writer, or Write(nil, request) when nothing is derived) and the answers of downstream readers " +
 			"(payload, error, None) delivered through Tracer.Receive, in any interleaving (so answers arrive while a later request is between Read and Link); observed after every call: the answers handed to each reader (outbound hook), " +
 			"Tracer.Reads / Tracer.Writes, panics; node level (every fourth case): see the node oracle; non-trivial = two requests of one reader in flight at once; distinct by rendered case",
 		Hist: map[string]int{},
@@ -427,7 +427,7 @@ func nodeCase(r *rand.Rand, hist map[string]int) (fail string) {
 			fail = fmt.Sprintf("node level panicked: %v", p)
 		}
 	}()
-	topo := r.Intn(4)
+	topo := r.Intn(5)
 	hist[fmt.Sprintf("node-topo-%d", topo)]++
 	w := &nw02{proc: process.New(), wire: map[string]string{}, entered: make(chan int, 64), noFail: topo == 2}
 	defer w.proc.Exit(nil)
@@ -446,6 +446,8 @@ func nodeCase(r *rand.Rand, hist map[string]int) (fail string) {
 	case 3: // fan-in: both outputs into one input
 		kinds = []int{2, 1}
 		w.wire["0.out[0]"], w.wire["0.out[1]"] = "1.in", "1.in"
+	case 4: // a lone one-to-many node: each output goes to a sink or nowhere
+		kinds = []int{2}
 	}
 	w.kinds = kinds
 	for i, k := range kinds {
@@ -483,6 +485,9 @@ func nodeCase(r *rand.Rand, hist map[string]int) (fail string) {
 	case 3:
 		addSink("1.out")
 		addSink("1.error")
+	case 4:
+		addSink("0.out[0]")
+		addSink("0.out[1]")
 	}
 	for from, to := range w.wire {
 		var n int
